@@ -344,9 +344,19 @@ func runSCIONServer(ctx context.Context, log *slog.Logger, mtrcs *scionServerMet
 			if fetcher != nil && len(decoded) >= 3 &&
 				decoded[len(decoded)-2] == slayers.LayerTypeEndToEndExtn {
 				authOpt, err = e2eLayer.FindOption(slayers.OptTypeAuthenticator)
-				if err == nil && len(authOpt.OptData) == scion.PacketAuthOptDataLen {
-					spi, algo := scion.PacketAuthOptMetadata(authOpt)
+				if err == nil && len(authOpt.OptData) >= 5 {
+					authOptData := authOpt.OptData
+					spi := uint32(authOptData[3]) |
+						uint32(authOptData[2])<<8 |
+						uint32(authOptData[1])<<16 |
+						uint32(authOptData[0])<<24
+					algo := uint8(authOptData[4])
 					if spi == scion.PacketAuthSPIClient && algo == scion.PacketAuthAlgorithm {
+						if len(authOptData) != scion.PacketAuthOptDataLen {
+							log.LogAttrs(ctx, slog.LevelInfo, "failed to authenticate packet",
+								slog.String("cause", "unexpected authenticator length"))
+							continue
+						}
 						hostASKey, err := fetcher.FetchHostASKey(ctx, drkey.HostASMeta{
 							ProtoId:  scion.DRKeyProtocolTS,
 							Validity: rxt,
